@@ -167,7 +167,13 @@ func one(raw json.RawMessage) interface{} {
 		panic(err)
 	}
 	defer os.RemoveAll(scratch)
-	root := filepath.Join(scratch, "proj")
+	// the name of the analysed directory is layout: every third tree lives in a directory whose name contains the
+	// letters of the ignored directory `gen` (a root called engine-generated next to a pattern `gen/`)
+	rootName := "proj"
+	if c.Layout%3 == 0 {
+		rootName = "engine-generated"
+	}
+	root := filepath.Join(scratch, rootName)
 	if c.Fresh == nil {
 		c.Fresh = []bool{}
 	}
@@ -208,9 +214,9 @@ func one(raw json.RawMessage) interface{} {
 			if err != nil || json.Unmarshal(b, &nodes) != nil {
 				return PassObs{Panic: true, Types: []TypeObs{}, Note: "cannot read " + name}
 			}
-			return PassObs{Types: project(nodes, "proj")}
+			return PassObs{Types: project(nodes, rootName)}
 		}
-		cmd := exec.Command(os.Getenv("VERIF_COCA"), "analysis", "-p", "proj")
+		cmd := exec.Command(os.Getenv("VERIF_COCA"), "analysis", "-p", rootName)
 		cmd.Dir = scratch
 		cmd.Env = append(os.Environ(), "TMPDIR="+scratch)
 		if out, err := cmd.CombinedOutput(); err != nil {
